@@ -230,6 +230,49 @@ func (l *labeler) Run(seed func()) {
 						if fr == nil {
 							return true
 						}
+						// a function literal handed to a higher-order helper: its parameters carry the labels of what
+						// the helper passes when it calls that parameter (`forEachDeleted(prev, cur, func(k, v) …)`:
+						// the helper ranges over prev and calls f(key, value))
+						if fr.Decl.Body != nil {
+							pnames := []types.Object{}
+							for _, fld := range fr.Decl.Type.Params.List {
+								if len(fld.Names) == 0 {
+									pnames = append(pnames, nil)
+								}
+								for _, nm := range fld.Names {
+									pnames = append(pnames, fr.Info().Defs[nm])
+								}
+							}
+							for ai, a := range x.Args {
+								lit, isLit := ast.Unparen(a).(*ast.FuncLit)
+								if !isLit || ai >= len(pnames) || pnames[ai] == nil || lit.Type.Params == nil {
+									continue
+								}
+								var litParams []types.Object
+								for _, fld := range lit.Type.Params.List {
+									for _, nm := range fld.Names {
+										litParams = append(litParams, info.Defs[nm])
+									}
+								}
+								ast.Inspect(fr.Decl.Body, func(m ast.Node) bool {
+									inner, ok := m.(*ast.CallExpr)
+									if !ok {
+										return true
+									}
+									if id, ok := ast.Unparen(inner.Fun).(*ast.Ident); !ok || fr.Info().Uses[id] != pnames[ai] {
+										return true
+									}
+									for j, ia := range inner.Args {
+										if j < len(litParams) && litParams[j] != nil {
+											if l.set(litParams[j], l.L(fr.Info(), ia)) {
+												changed = true
+											}
+										}
+									}
+									return true
+								})
+							}
+						}
 						idx := 0
 						for _, fld := range fr.Decl.Type.Params.List {
 							names := fld.Names
@@ -317,13 +360,7 @@ func findNotFoundLoops(p *Prog, pk *packages.Package) []notFoundLoop {
 				if !ok || identObj(info, ue.X) != okObj || okObj == nil {
 					continue
 				}
-				hasAnn := false
-				ast.Inspect(ifs.Body, func(m ast.Node) bool {
-					if call, ok := m.(*ast.CallExpr); ok && isAnnotationCall(info, call) {
-						hasAnn = true
-					}
-					return !hasAnn
-				})
+				hasAnn := annotatesHere(pk, p.EnclosingFuncDecl(rs), ifs.Body)
 				if !hasAnn {
 					continue
 				}
@@ -439,4 +476,42 @@ func (l *labeler) resultLabels(fr *FuncRef) []uint8 {
 		return true
 	})
 	return out
+}
+
+// annotatesHere: body adds an annotation, directly or by calling a callback parameter of the enclosing function for
+// which every call site of that function hands in a function literal that adds one (a higher-order helper such as
+// `forEachDeleted(prev, cur, func(k, v) error { …AddAnnotation… })`).
+func annotatesHere(pk *packages.Package, fd *ast.FuncDecl, body ast.Node) bool {
+	info := pk.TypesInfo
+	has := false
+	ast.Inspect(body, func(m ast.Node) bool {
+		call, ok := m.(*ast.CallExpr)
+		if !ok || has {
+			return !has
+		}
+		if isAnnotationCall(info, call) {
+			has = true
+			return false
+		}
+		if lits := paramCallbackLiterals(pk, fd, call.Fun); len(lits) > 0 {
+			all := true
+			for _, cb := range lits {
+				ann := false
+				ast.Inspect(cb.lit.Body, func(k ast.Node) bool {
+					if c2, ok := k.(*ast.CallExpr); ok && isAnnotationCall(info, c2) {
+						ann = true
+					}
+					return !ann
+				})
+				if !ann {
+					all = false
+				}
+			}
+			if all {
+				has = true
+			}
+		}
+		return !has
+	})
+	return has
 }
